@@ -229,12 +229,11 @@ def check_spline_values(ev, acc, prop, x, xf, yf, M, bc, q, qf, lane_res, tol0, 
                 continue
             deltaF = 2 * abs(d_fl - dF) + 2 * (abs(dF) / PF) * abs(P_fl - PF) \
                 + 4 * X.unit(ty, F) * (abs(x0F) + PF)
-            # up to 2^26 periods away (the property's own range is 10^6) any ordinary argument
-            # reduction - e.g. d - floor(d/P)*P - is accurate to a few ulps of d: allow that
-            # too. Farther out only an exact remainder yields a defined image at all, and the
-            # bound above (which is exact where that arithmetic is exact) applies alone.
-            if abs(dF) <= PF * 2 ** 26:
-                deltaF += 4 * X.unit(ty, F) * abs(dF)
+            # any ordinary argument reduction - e.g. d - floor(d/P)*P instead of an exact
+            # remainder - is accurate to a few ulps of d: that, too, is "rounding of the wrapped
+            # argument". (Consequence: queries more than about 2^49 periods away are not judged,
+            # see below - the statement's own tolerance exceeds a period there.)
+            deltaF += 4 * X.unit(ty, F) * abs(dF)
             delta = N_of(N, deltaF)
             if deltaF * 4 > PF:
                 # neighbouring floats of the query are about a period apart: the wrapped
